@@ -263,6 +263,12 @@ theorem C08_closed_silent : ∀ (bs : List Block) (h h' : Host) (out : List Pkt)
     have s2 := ih h1 h2 out2 s1.2 hr2
     exact ⟨by simp [s1.1, s2.1], s2.2⟩
 
+/-- the synchronous `unregister_service(info)` returns only after all three goodbyes were handed to `async_send` (D19 repair:
+`await_awaitable`), so that the library's own shutdown sequence `unregister_service(info); close()` cannot cut them.  A statement
+about the wrapper's shape (translated leaf); the threads are exercised by the harness' `sync` stream, not modelled. -/
+theorem C08_sync_unregister_waits : syncUnregisterGoodbyesOnReturn = 3 := by
+  simp [syncUnregisterGoodbyesOnReturn, sync_wrappers_await.1, Zc.GenFacts.Register.broadcast_count_eq]
+
 /-! ### the English-level reading: "its PTR, SRV, TXT records" by owner name and type (known finding D20) -/
 
 /-- `r` is a record *of the service instance* `s` whatever its rdata: SRV / TXT / NSEC owned by the instance name, or a PTR to it -/
